@@ -144,7 +144,11 @@ func (w *World) c20HookEvent(name string, kv ...any) {
 		st.mu.Lock()
 		if r := st.byTask[kv[2]]; r != nil {
 			r.live = false
-			w.sched.Log.Add("%d runner stop %s/%s gen=%d", w.step, r.src, r.ig, r.gen)
+			if !w.ending.Load() {
+				// at the end of a run all runners are stopped at once: their
+				// order is the Go scheduler's and is not part of the event log
+				w.sched.Log.Add("%d runner stop %s/%s gen=%d", w.step, r.src, r.ig, r.gen)
+			}
 		}
 		st.mu.Unlock()
 	}
@@ -240,6 +244,7 @@ func RunC20(t *testing.T, plan *Plan, st *core.Stream, extra Extra, keepLog bool
 			if w.mgr != nil {
 				func() {
 					defer func() { recover() }()
+					w.ending.Store(true)
 					w.mgr.VerifStop()
 				}()
 			}
@@ -808,6 +813,7 @@ func GenC20(seed uint64) *Plan {
 		cs.Saves = append(cs.Saves, d)
 	}
 	p.C20 = cs
+	p.Checks["permute_integrations"] = true
 	p.Faults = FaultPlan{HealAt: g.between(200, 900), GrowPerMille: 20, MaxGrow: 10}
 	p.MaxSteps = 2500
 	return p
